@@ -44,6 +44,10 @@ ArmInstalled == Step("ArmInstalled") /\ s.phase = "begun" /\ Ev.ok /\ s' = [s EX
 \* C09 through every fake! form: the same fake paired with a target of another kind is refused
 ArmWrong == Step("ArmWrong") /\ s.phase = "begun" /\ Ev.refused /\ Ev.cls = "sig-mismatch" /\ s' = [s EXCEPT !.phase = "done"]
 
+\* another fake (another function, another expansion, no count) installed in the same injector between two calls: nothing
+\* changes for this one
+ArmSecond == Step("ArmSecond") /\ s.phase = "ready" /\ Ev.ok /\ s' = s
+
 ArmCallBegin ==
   /\ Step("ArmCallBegin") /\ s.phase = "ready"
   /\ s' = [s EXCEPT !.phase = "incall", !.want = FakeCall(Ev.x)]
@@ -77,7 +81,7 @@ ArmChild ==
      \/ s.phase = "incall" /\ ~s.unwinds /\ s.want.res \in {"panic-args", "panic-over"} /\ Ev.signal = 6
   /\ s' = [s EXCEPT !.phase = "done"]
 
-TraceNext == ArmWrong \/ ArmBegin \/ ArmInstalled \/ ArmCallBegin \/ ArmPanic \/ ArmCall \/ ArmExit \/ ArmChild
+TraceNext == ArmSecond \/ ArmWrong \/ ArmBegin \/ ArmInstalled \/ ArmCallBegin \/ ArmPanic \/ ArmCall \/ ArmExit \/ ArmChild
 TraceSpec == TraceInit /\ [][TraceNext]_tvars
 Track == TrackProgress(sc, l)
 Post == PrintProgress
